@@ -4,12 +4,12 @@ import json
 claimed = {
  "C07": dict(level="fault_enumeration", engine="callee",
    technique="deterministic simulation: simulated callee raising at every dynamic call position of tape-generated programs, judged against a control-flow reference model",
-   text="Every dynamic invocation position of each generated program is faulted (complete per program; programs are sampled from a seeded tape). The real interpreter's slot trace, outcome and reachable values are compared with a small reference model of fail-stop propagation, thoughtful-chain absorption and pending defers.",
+   text="Every dynamic invocation position of each generated program is faulted (complete per program; programs are sampled from a seeded tape). The real interpreter's slot trace, outcome and reachable values are compared with a small reference model of fail-stop propagation, thoughtful-chain absorption and pending defers. Generated constructs include calls with *, ** and repeated/private keywords, all chain contexts (also over iterator literals and on nil receivers), native higher-order props with generated callbacks, try constructs, interpolation of values with their own S, conditions that answer B themselves, pinned keys, comparisons, assignment expressions and errors the interpreter raises itself (unbound name, missing property, division by zero).",
    note="Trusts the reference model in sim/gen/model.go (calibrated against the implementation, leaves open whatever the statement leaves open), and that a built-in returning *PanErr is equivalent to a user function that raises. try/Either delivery is decided under C13.",
    ref="§3 C07"),
  "C15": dict(level="fault_enumeration", engine="callee",
    technique="deterministic simulation: crash-point enumeration (raise injected at every slot of generated bodies with defers) against a defer reference model",
-   text="Generated function bodies with plain/guarded defers, return, raise and nested calls are run fault-free and with a raise injected at every dynamic slot index (body, guard, nested call, deferred expression). Exactly-once, reach order and unchanged outcome are checked against the model for every crash point of every generated body.",
+   text="Generated function bodies with plain/guarded defers, return, raise and nested calls are run fault-free and with a raise injected at every dynamic slot index (body, guard, nested call, deferred expression). Exactly-once, reach order and unchanged outcome are checked against the model for every crash point of every generated body. Deferred expressions include nested calls with defers of their own, caught errors as values, bare names and iterator bodies; guards include objects that answer B themselves.",
    note="Trusts the defer reference model; the value of a body ending in a defer statement is left unspecified.",
    ref="§3 C15"),
 }
